@@ -125,7 +125,37 @@ def coqchk_gate(pid):
     return {"ok": ok, "summary": summary.strip()[:1500], "axioms": axioms, "wall_s": round(time.time() - t0, 1)}
 
 
-def proof_gate(pid, theorems):
+def proof_gate(pid, theorems, files=None):
+    """A. of the protocol (a property may spread its statements over several files, e.g. C01.v and C01real.v)."""
+    files = files or [pid]
+    if len(files) == 1:
+        return proof_gate1(files[0], theorems)
+    merged = {"ok": True, "problems": [], "obligations": len(theorems), "discharged": 0, "axioms": {}, "wall_s": 0}
+    import re as _re
+    for fn in files:
+        vfile = os.path.join(lib.COQDIR, "Properties", fn + ".v")
+        src = strip_coq_comments(open(vfile).read()) if os.path.exists(vfile) else ""
+        stated = _re.findall(r"^\s*(?:Theorem|Lemma|Corollary)\s+([A-Za-z0-9_']+)", src, flags=_re.M)
+        g = proof_gate1(fn, [t for t in theorems if t in stated])
+        merged["ok"] = merged["ok"] and g["ok"]
+        merged["problems"] += g["problems"]
+        merged["discharged"] += g["discharged"]
+        merged["axioms"].update(g["axioms"])
+        merged["wall_s"] += g["wall_s"]
+        theorems_here = set(stated)
+    all_stated = set()
+    for fn in files:
+        vfile = os.path.join(lib.COQDIR, "Properties", fn + ".v")
+        if os.path.exists(vfile):
+            all_stated.update(_re.findall(r"^\s*(?:Theorem|Lemma|Corollary)\s+([A-Za-z0-9_']+)", strip_coq_comments(open(vfile).read()), flags=_re.M))
+    for t in theorems:
+        if t not in all_stated:
+            merged["ok"] = False
+            merged["problems"].append("theorem %s not stated in any of %s" % (t, files))
+    return merged
+
+
+def proof_gate1(pid, theorems):
     """A. of the protocol: the property file is compiled against the current model sources, its
     Print Assumptions output lists only allow-listed axioms, the sources contain no escape hatch."""
     t0 = time.time()
@@ -270,14 +300,17 @@ def run_check(chk, tier, seed, replay=None, max_report=5):
             os.remove(old)
         except OSError:
             pass
-    gate = proof_gate(pid, chk.theorems)
+    pfiles = getattr(chk, "property_files", None) or [pid]
+    gate = proof_gate(pid, chk.theorems, pfiles)
     chk_res = None
     if tier == "thorough":
-        chk_res = coqchk_gate(pid)
-        gate["coqchk"] = chk_res
-        if not chk_res["ok"]:
-            gate["ok"] = False
-            gate["problems"].append("coqchk: " + chk_res["summary"][:300])
+        gate["coqchk"] = {}
+        for fn in pfiles:
+            chk_res = coqchk_gate(fn)
+            gate["coqchk"][fn] = chk_res
+            if not chk_res["ok"]:
+                gate["ok"] = False
+                gate["problems"].append("coqchk %s: %s" % (fn, chk_res["summary"][:300]))
 
     # ---- cases
     cases = list(chk.gen(tier, rng))
@@ -439,7 +472,7 @@ def run_check(chk, tier, seed, replay=None, max_report=5):
         "coverage": {
             "obligations": gate["obligations"],
             "discharged": gate["discharged"],
-            "checker_cmd": "make -C /verif coq  (coq_makefile full .vo build, coqc 8.16.1) ; coqc coq/Properties/%s.v with Print Assumptions" % pid,
+            "checker_cmd": "make -C /verif coq  (coq_makefile full .vo build, coqc 8.16.1) ; coqc coq/Properties/{%s}.v with Print Assumptions" % ",".join(pfiles),
             "trusted_base": [
                 "Coq 8.16.1 kernel incl. vm_compute (no native_compute)",
                 "axioms per theorem as printed by Print Assumptions: " + json.dumps(gate["axioms"]),
